@@ -5,7 +5,8 @@ The positive theorems are in the sister files:
 * `Props/C19SlowInv.lean` — `healthy_not_affected`, `send_end_complete`, `removed_only_dead_or_unsubscribed` (safety: whatever the environment does
   to connection X, every other member of the channel gets every message published on it once, in publish order, and is never pruned while alive);
 * `Props/C19SlowLive.lean` — `stall_only_delays_partial`, `reply_counts_deliveries` (under fairness towards the sender a Send that holds the channel
-  lock terminates and its reply is the number of its deliveries);
+  lock terminates and its reply is the number of its deliveries); `Props/C19SlowLiveFull.lean` — `stall_only_delays` (every stall ends + strongly
+  fair scheduler ⇒ every invoked operation completes, from its invocation);
 * `Props/C19SlowConfirm.lean` — `confirm_after_join` and the negative companion `confirm_before_join_misses`.
 
 This file: the NEGATIVE side, kernel-checked.  `ChanMap.Send` calls `c.Write(push)` on a `net.Conn` with no deadline while it holds the channel
@@ -23,7 +24,7 @@ object's lock.  If the peer never reads again and never closes, `Write` never re
   environment resumes or kills connection 1.
 
 So the sentence of C19 "subscribing, publishing and disconnecting concurrently never … block publishers indefinitely" is TRUE OF THE GO CODE ONLY
-UNDER THE FAIRNESS READING "every subscriber that stops reading eventually reads again or closes" (`stall_only_delays_partial`); without it the
+UNDER THE FAIRNESS READING "every subscriber that stops reading eventually reads again or closes" (`stall_only_delays`); without it the
 code blocks the channel and, through `Subscribe`'s table-wide lock, every channel.  This is a finding about the code (not repaired here: a repair
 needs a per-write deadline or a per-subscriber queue — the seeded `C19-publish-shared-deadline` shows how a careless deadline breaks
 `healthy_not_affected`).  The name carries `_partial` because the unconditional sentence of the property is refuted, not proved. -/
@@ -196,7 +197,7 @@ theorem stalled_subscriber_blocks_channel_and_table : ∃ s : St 5, Reach negPro
     exact List.eq_nil_of_length_eq_zero hdl
 
 /-- **never_block_publishers_needs_fairness_partial** (C19, NEGATIVE; `_partial`: the property's unconditional "never block publishers indefinitely" is refuted for the
-    model — and the Go code —, it holds under the fairness reading only, see `stall_only_delays_partial`).  From a reachable state of real programs, along EVERY continuation in
+    model — and the Go code —, it holds under the fairness reading only, see `stall_only_delays`).  From a reachable state of real programs, along EVERY continuation in
     which the environment does not resume or kill connection 1 — whatever else it does, whatever the scheduler does — nothing ever completes: the PUBLISH on `a`, the second
     PUBLISH on `a`, the SUBSCRIBE to `a`, the PUBLISH on the other channel `b` and the UNSUBSCRIBE all stay where they are, the channel lock and the table lock stay held. -/
 theorem never_block_publishers_needs_fairness_partial : ∃ s : St 5, Reach negProgs s ∧ Real negProgs ∧
